@@ -77,8 +77,9 @@ def analysis_tables(ctx, n, seed_off, max_len=800, kinds=None):
 
 
 # ------------------------------------------------------------------------------------------------ C18
-def record_limit(df, fs, a2, b2, reset):
+def record_limit(df, fs, a2, b2, reset, lab=0):
     from bycycle.utils import limit_df
+    df = pj.relabel(df, lab)
     pre = snapshot(df)
     raised, out = '', []
     try:
@@ -107,8 +108,9 @@ def _cols(df):
     return [[c_i, col_fp(df[c].values.astype(float)), 1 if c.startswith('sample_') else 0] for c_i, c in enumerate(df.columns)]
 
 
-def record_split_drop(df0):
+def record_split_drop(df0, lab=0):
     from bycycle.utils import split_samples_df, drop_samples_df
+    df0 = pj.relabel(df0, lab)
     names = list(df0.columns)
     idx = {c: i for i, c in enumerate(names)}
 
@@ -159,8 +161,9 @@ def record_flatten(dfs, labels, two_d):
 
 
 # ------------------------------------------------------------------------------------------------ C13
-def record_epoch_df(df, sig_len, L):
+def record_epoch_df(df, sig_len, L, lab=0):
     from bycycle.utils import epoch_df
+    df = pj.relabel(df, lab)
     raised, out = '', []
     try:
         out = [project_rows(d) for d in epoch_df(df, sig_len, L)]
